@@ -23,5 +23,7 @@ Ltac destr_inner_if :=
       | _ => destruct b eqn:?
       end
   end.
-Ltac src_close := split_eq; first [reflexivity | lia | exfalso; lia].
+(* (the f_equal/ring alternative: the same quotient with its dividend spelled in another order, e.g. (p*n)/q) *)
+Ltac feq_ring := first [ring | (progress f_equal; feq_ring)].
+Ltac src_close := split_eq; first [reflexivity | lia | solve [feq_ring] | exfalso; lia].
 Ltac src_finish := src_norm; cmp_norm; repeat (destr_inner_if; src_norm); src_close.
